@@ -129,6 +129,23 @@ def r1_roles(ctx):
     cons = [c for c in func_calls(ci.node) if u(c.func) == "FastaIdx"]
     ctx.need(len(cons) == 1 and len(cons[0].args) == 5, "create_index: FastaIdx(...) with five positional arguments not found")
     comp_var = None
+    cloops = [x for x in body_walk(ci.node) if isinstance(x, ast.For) and any(y is cons[0] for y in ast.walk(x))]
+    if cloops:
+        # loop form: a running byte offset must ACCUMULATE the sizes of the chunks seen so far
+        lp = cloops[0]
+        comp_var = u(lp.target)
+        offs = [a for a in cons[0].args if isinstance(a, ast.BinOp) and isinstance(a.op, ast.Add)]
+        ctx.need(len(offs) == 1 and isinstance(offs[0].right, ast.Name), "create_index (loop form): shifted OFFSET argument not found")
+        off_var = offs[0].right.id
+        ups = [x for x in lp.body if (isinstance(x, ast.AugAssign) and u(x.target) == off_var) or (isinstance(x, ast.Assign) and u(x.targets[0]) == off_var)]
+        ok = len(ups) == 1 and isinstance(ups[0], ast.AugAssign) and isinstance(ups[0].op, ast.Add) and sym.canon(ups[0].value) == f"{comp_var}.byte_size[0]"
+        ctx.ob(ci.where, "records of later chunks are shifted by the CUMULATIVE byte size of all earlier chunks (the running offset accumulates, it is not overwritten)", ok,
+               "; ".join(u(x) for x in ups), key="C17-R3|create_index|offset-accumulates")
+        for i, (a, fld) in enumerate(zip(cons[0].args, fields)):
+            want = f"{comp_var}.{fld}" + (f" + {off_var}" if ROLES[i] == "OFFSET" else "")
+            ctx.ob(ci.where, f"index column {ROLES[i]} is the builder's {fld}" + (" shifted by the chunk's file offset" if ROLES[i] == "OFFSET" else " (unshifted)"),
+                   sym.same(a, want), u(a), key=f"C17-R3|create_index|{ROLES[i]}")
+        return kr, fields
     for x in body_walk(ci.node):
         if isinstance(x, ast.ListComp) and any(y is cons[0] for y in ast.walk(x)):
             t = x.generators[0].target
@@ -196,6 +213,14 @@ def r2_byte_arithmetic(ctx):
     g = ix.func(IF, "IndexedFasta.get_interval_sequences")
     loop = [x for x in linear_body(g.node) if isinstance(x, ast.For)]
     ctx.need(len(loop) == 1, "generic interval path: per-interval loop not found")
+    # results are appended in iteration order: the loop walks the intervals in the order they were given (not grouped by contig, not sorted)
+    giv = g.params[1]
+    ok_order = u(loop[0].iter) in (giv, f"iter({giv})") and not any(isinstance(x, ast.For) for st in loop[0].body for x in ast.walk(st) if isinstance(x, ast.For) and giv in u(x.iter))
+    inner = [x for st in loop[0].body for x in ast.walk(st) if isinstance(x, ast.For) and giv in u(x.iter)]
+    ctx.ob(g.where, "generic path: row i of the result is the sequence of interval i (the intervals are read in the order given; grouping them by contig would reorder the rows)",
+           ok_order and not inner, f"outer loop over {u(loop[0].iter)[:60]}" + (f"; inner loop over {u(inner[0].iter)[:60]}" if inner else ""), key="C17-R2|generic|order")
+    if inner:
+        return
     lb = loop[0].body
     it = u(loop[0].target)
     m2 = {}
